@@ -120,6 +120,15 @@ func IteU64(c bool, a, b uint64) uint64 {
 	return b
 }
 func DrbgStream(draws []uint64)       {}
+// ScalarBytes: 32 big-endian bytes of a value in [1, n) (n = secp256k1 group order).
+func ScalarBytes(label string) []byte {
+	v := next(label)
+	n, _ := new(big.Int).SetString("FFFFFFFFFFFFFFFFFFFFFFFFFFFFFFFEBAAEDCE6AF48A03BBFD25E8CD0364141", 16)
+	Assume(v.Sign() > 0 && v.Cmp(n) < 0)
+	b := make([]byte, 32)
+	v.FillBytes(b)
+	return b
+}
 func IteBig(c bool, a, b *big.Int) *big.Int {
 	if c {
 		return a
